@@ -705,10 +705,37 @@ def replay(c, script_in, states=None, U=1, version=3, variant='arg',
         else:
             res['outcome'] = 'returned'
         # ---- late replies to requests of cancelled tasks ----
+        res['late_replies'] = 0
         if late and script.held:
+            res['late_replies'] = len(script.held)
             for req in list(script.held):
                 script.answer(req, 'auto')
             loop.run_until_idle()
+        # ---- the session must still serve a new request (every reply sent
+        #      carried the id of a request the client had made) ----
+        if late and task is not None and res['outcome'] in ('returned',
+                                                            'raised'):
+            ft = loop.create_task(sftp.realpath(b'/followup'))
+            loop.run_until_idle()
+            if not ft.done():
+                ft.cancel()
+                loop.run_until_idle()
+                res['followup'] = 'no reply'
+            elif ft.cancelled():
+                res['followup'] = 'cancelled'
+            elif ft.exception() is not None:
+                res['followup'] = f'{type(ft.exception()).__name__}: ' \
+                                  f'{ft.exception()}'
+            elif ft.result() != b'/followup':
+                res['followup'] = f'wrong answer {ft.result()!r}'
+            else:
+                res['followup'] = 'ok'
+            if res['followup'] != 'ok':
+                res['l1'].append(('SessionSurvives', f'after the call '
+                                  f'{res["outcome"]} and {res["late_replies"]}'
+                                  f' late replies to its cancelled block '
+                                  f'requests, a new request on the same '
+                                  f'session got: {res["followup"]}'))
         # ---- L1 monitors ----
         short_src = op in ('get', 'put', 'copy') and not sparse and L < A
         if res['outcome'] == 'returned':
